@@ -332,6 +332,7 @@ func (g *G) defineStmt(sc *scope, depth int) []string {
 	switch t.K {
 	case KSlice:
 		rhs, v.MinLen = g.sliceExpr(sc, t, depth, 0)
+		v.CapKnown = strings.HasPrefix(rhs, "make(") || strings.HasPrefix(rhs, t.Go()+"{")
 	case KPtr:
 		rhs = g.ptrExpr(sc, t, depth)
 		v.NonNil = true
@@ -1473,7 +1474,9 @@ func (g *G) structSnapshotStmt(sc *scope) []string {
 // emptyWindowStmt: an empty or constant-bound sub-slice keeps the capacity behind it (seeded
 // change C01-19): cap of s[:0], s[n:n], s[0:n] on slices that are never appended to.
 func (g *G) emptyWindowStmt(sc *scope) []string {
-	vs := g.varsOf(sc, func(v *Var) bool { return v.T != nil && v.T.K == KSlice && v.MinLen >= 1 && !v.Mutable && !v.Big })
+	vs := g.varsOf(sc, func(v *Var) bool {
+		return v.T != nil && v.T.K == KSlice && v.MinLen >= 1 && v.CapKnown && !v.Mutable && !v.Big
+	})
 	if len(vs) == 0 {
 		return nil
 	}
